@@ -275,3 +275,23 @@ func verifResume(kind int) flows.Resume {
 	}
 	return resumes.NewDial(nil, nil, flows.NewDial(flows.DialStatusAnswered, 5))
 }
+
+func verifPlainNodeWithActions(flow, n, dest int, acts ...flows.Action) flows.Node {
+	d := flows.NodeUUID("")
+	if dest >= 0 {
+		d = verifNodeUUID(flow, dest)
+	}
+	return definition.NewNode(verifNodeUUID(flow, n), acts, nil, []flows.Exit{definition.NewExit(verifExitUUID(flow, n, 0), d)})
+}
+
+func verifFlowOf(flow int, nodes ...flows.Node) flows.Flow {
+	f, err := definition.NewFlow(verifFlowUUID(flow), "F"+string(rune('0'+flow)), "eng", flows.FlowTypeMessaging, 1, 10, definition.NewLocalization(), nodes, nil, nil)
+	if err != nil {
+		zzverif.Assume(false)
+	}
+	return f
+}
+
+func verifResumeMsg(urn urns.URN) flows.Resume {
+	return resumes.NewMsg(nil, nil, flows.NewMsgIn(flows.MsgUUID("msg2"), urn, nil, "again", nil))
+}
